@@ -50,7 +50,7 @@ func appendedElems(call ssa.CallInstruction) []string {
 func mapUpdatesOf(fn *ssa.Function, name, mapTypeRe string) Ev {
 	rx := regexp.MustCompile(mapTypeRe)
 	ev := Ev{Name: name, Fn: fn}
-	for _, b := range fn.Blocks {
+	for _, b := range blocksIP(fn) {
 		for _, in := range b.Instrs {
 			if mu, ok := in.(*ssa.MapUpdate); ok && rx.MatchString(typeStr(mu.Map.Type())) {
 				ev.Ins = append(ev.Ins, in)
@@ -351,7 +351,7 @@ func rulesC14(c *Ctx) {
 			_ = fs
 		}
 		var mOK, eOK bool
-		for _, b := range fn.Blocks {
+		for _, b := range blocksIP(fn) {
 			for _, in := range b.Instrs {
 				st, ok := in.(*ssa.Store)
 				if !ok {
